@@ -1236,6 +1236,8 @@ def _iv_arith(a, pre):
         return td + iv
     if o == "sub_td":
         return iv - td
+    if o == "rsub_td":
+        return td - iv
     if o == "totals":
         return {"k": "totals", "ind": proj.sm(iv.in_days()), "inw": proj.sm(iv.in_weeks()), "iny": proj.sm(iv.in_years()),
                 "years": int(iv.years), "eq_td": bool(iv == iv.as_timedelta()), "eq_dur": bool(iv == iv.as_duration()),
